@@ -706,6 +706,12 @@ def c19(tier, seed):
     g, scs = gen_scenarios("C19", "Gen_Views", env={"DEPTH": 3 if th else 2}, timeout=1500)
     v.add_tlc(g)
     v.exhaustive = True
+    # every premultiplied (colour, alpha) pair through the PNG export: one one-row surface per alpha holding all its colours
+    # (r = c, g and b two other valid channel values), so that the floor(c * 255 / a) rule is decided for all 32 895 pairs
+    for a in range(1, 256):
+        row = [[a, c, (c * 7 + 3) % (a + 1), a - c] for c in range(0, a + 1)]
+        scs.append({"id": "premultiplied-pairs-alpha-%d" % a, "fam": "views", "kind": "views", "w": a + 1, "h": 1, "ctor": "from_vec",
+                    "pixels": row, "writes": [], "solid": [255, 255, 255, 255]})
     simple_validate("C19", v, scs, "all", "Trace_Views", sigfn=lambda sc, tup: {"fam": "views", "what": tup[3]})
     v.samples = [scs[3], scs[-1]]
     return v.finish()
